@@ -92,6 +92,14 @@ def apply(c, op, scratch):
                 new.update(dict((a, _dec(b)) for a, b in op[1]))
             c.open(new)
             return ('unit',)
+        if k == 'setarchive':
+            if op[1] is None:
+                new = ar.null_archive('n3', cached=False)
+            else:
+                new = ar.dict_archive('assigned', cached=False)
+                new.update(dict((a, _dec(b)) for a, b in op[1]))
+            c.archive = new            # the property setter
+            return ('unit',)
         if k == 'drop':
             c.drop()
             return ('unit',)
@@ -132,8 +140,8 @@ def op_line(op):
         return 'c.sync %d' % (1 if op[1] else 0)
     if k == 'archived':
         return 'c.archived ' + ('-' if op[1] is None else ('1' if op[1] else '0'))
-    if k == 'open':
-        return 'c.open ' + ('-' if op[1] is None else ' '.join('%d %d' % (a, b) for a, b in op[1]))
+    if k in ('open', 'setarchive'):
+        return 'c.%s ' % k + ('-' if op[1] is None else ' '.join('%d %d' % (a, b) for a, b in op[1]))
     raise ValueError(op)
 
 
@@ -160,13 +168,13 @@ def gen_ops(rng, n, backend):
     nk = rng.randint(3, 7)
     ops = []
     w = dict(set=14, delete=5, pop=3, clear=2, update=4, load=10, dump=10, sync=6, archived=8, open=3, drop=2,
-             archset=10, archdel=4)
+             archset=10, archdel=4, setarchive=3)
     kinds, weights = list(w), list(w.values())
     val = 0
     for _ in range(n):
         kind = rng.choices(kinds, weights)[0]
         val += 1
-        some = (lambda v: NONE_CODE if rng.random() < 0.12 else v)     # None is a value like any other
+        some = (lambda v: NONE_CODE if rng.random() < 0.12 else (rng.choice([1, 2, 3]) if rng.random() < 0.3 else v))     # None is a value like any other; small values recur
         key = rng.randrange(nk)
         if kind == 'set':
             ops.append(('set', key, some(val)))
@@ -192,6 +200,12 @@ def gen_ops(rng, n, backend):
             else:
                 ks = rng.sample(range(nk), rng.randint(0, nk))
                 ops.append(('open', [(k, some(val * 10 + i)) for i, k in enumerate(ks)]))
+        elif kind == 'setarchive':
+            if rng.random() < 0.2:
+                ops.append(('setarchive', None))
+            else:
+                ks = rng.sample(range(nk), rng.randint(0, nk))
+                ops.append(('setarchive', [(k, some(val * 10 + i)) for i, k in enumerate(ks)]))
         elif kind == 'drop':
             ops.append(('drop',))
         elif kind == 'archset':
